@@ -13,7 +13,8 @@ RealM == 65536
 
 \* core grid at the real modulus
 SendCoreQuick == { MkS(RealM, W, NB, 1, chk, le, 0) :
-                     W \in 1..3, NB \in 1..4, chk \in BOOLEAN, le \in BOOLEAN }
+                     W \in 1..2, NB \in 1..3, chk \in BOOLEAN, le \in BOOLEAN }
+              \cup { MkS(RealM, 3, 4, 1, FALSE, le, 0) : le \in BOOLEAN }
 SendCoreFull  == { MkS(RealM, W, NB, R, chk, le, 0) :
                      W \in 1..4, NB \in 1..6, R \in 1..2, chk \in BOOLEAN, le \in BOOLEAN }
 RecvCoreQuick == { MkR(RealM, W, 1, clean, 0) : W \in 1..3, clean \in BOOLEAN }
@@ -31,4 +32,10 @@ RecvWrapSmall == { MkR(4, W, 1, TRUE, 0) : W \in 1..3 } \cup { MkR(8, W, 1, TRUE
 \* wrap-around at the real modulus: start after a conformant prefix of base0 blocks
 SendWrapReal == { MkS(RealM, W, 65536 + 3, 1, FALSE, FALSE, b0) : W \in 1..3, b0 \in {65532, 65533, 65534} }
 RecvWrapReal == { MkR(RealM, W, 1, TRUE, b0) : W \in 1..3, b0 \in {65532, 65533, 65534} }
+
+\* boundary window sizes 65534 / 65535: short files (window never full) ...
+SendBigWShort == { MkS(RealM, W, NB, 1, FALSE, FALSE, 0) : W \in {65534, 65535}, NB \in {1, 3} }
+\* ... and full windows, which also straddle the wrap (one 65535-datagram burst per script)
+SendBigWFull  == { MkS(RealM, W, 65536 + 2, 1, FALSE, FALSE, 0) : W \in {65534, 65535} }
+RecvBigW      == { MkR(RealM, W, 1, TRUE, 0) : W \in {65534, 65535} }
 =============================================================================
